@@ -384,10 +384,10 @@ SPECS = [
     FSpec('GroupL1Norm', POW, [{'p': 2}, {'p': 1}],
           lambda sp, o: odl.solvers.GroupL1Norm(sp, o['p']),
           lambda i, o: ref_group_l1(i, o['p']), dom=lambda i, o: _groupnonzero(o['p'])(i, o)),
-    FSpec('GroupL1Norm[weighted product]', ['pw_rn2_2_c', 'pr_rn2_rn2_w'], [{'p': 2}],
+    FSpec('GroupL1Norm[weighted product]', ['pw_rn2_2_c', 'pr_rn2_rn2_w', 'pw_rn2_1_c'], [{'p': 2}],
           lambda sp, o: odl.solvers.GroupL1Norm(sp, o['p']),
           lambda i, o: ref_group_l1(i, o['p']), dom=lambda i, o: _groupnonzero(o['p'])(i, o)),
-    FSpec('IndicatorGroupL1UnitBall[weighted product]', ['pw_rn2_2_c', 'pr_rn2_rn2_w'], [{'p': 2}],
+    FSpec('IndicatorGroupL1UnitBall[weighted product]', ['pw_rn2_2_c', 'pr_rn2_rn2_w', 'pw_rn2_1_c'], [{'p': 2}],
           lambda sp, o: odl.solvers.IndicatorGroupL1UnitBall(sp, float(o['p'])),
           lambda i, o: ref_ind_group_ball(i, float(o['p'])), prox_tol=1e-6),
     FSpec('IndicatorGroupL1UnitBall', POW, [{'p': 2}, {'p': 'inf'}],
